@@ -148,6 +148,11 @@ func (e *robustEnv) template(name string) interface{} {
 		return e.cenv.patchJSON(&CPatch{A: "add-public-keys", Ents: []CEnt{{1, 1}, {2, 2}}})
 	case "patch_services":
 		return e.cenv.patchJSON(&CPatch{A: "add-services", Ents: []CEnt{{1, 2}}})
+	case "patch_services_objects":
+		// service endpoints that are objects / lists of objects (DIDComm v2 style)
+		return map[string]interface{}{"action": "add-services", "services": []interface{}{
+			map[string]interface{}{"id": "s1", "type": "T", "serviceEndpoint": map[string]interface{}{"uri": "https://a.example/x"}},
+			map[string]interface{}{"id": "s2", "type": "T", "serviceEndpoint": []interface{}{map[string]interface{}{"uri": "https://b.example/y"}}}}}
 	case "patch_aka":
 		return e.cenv.patchJSON(&CPatch{A: "add-also-known-as", IDs: []int{1, 2}})
 	case "patch_replace":
@@ -253,6 +258,9 @@ func replacement(repl string, old interface{}) (interface{}, bool) {
 		return "/other/arr/-1", true
 	case "huge_index":
 		return "/other/arr/99999999999999999999", true
+	case "varint_overflow":
+		// where a multihash is expected: bytes whose leading varint never ends within 64 bits
+		return b64(append(bytes.Repeat([]byte{0xff}, 11), 0x01, 0x20, 0x00)), true
 	case "large_index":
 		// fits an int: a library that sizes an array by a destination index allocates 800 GB
 		return "/other/arr/99999999999", true
@@ -569,11 +577,18 @@ func (e *robustEnv) call(ep, template string, input interface{}) (outcome string
 
 		worst := "ok"
 
-		for _, d := range []document.Document{doc, {}, {"publicKey": []interface{}{e.cenv.keyJSON(CEnt{1, 1})}}} {
+		for _, d := range []document.Document{doc, {}, {"publicKey": []interface{}{e.cenv.keyJSON(CEnt{1, 1})}},
+			{"id": "did:example:123", "other": map[string]interface{}{"a": 1.0, "arr": []interface{}{1.0, 2.0}}}} {
 			beforeDoc, beforePatch := digestJSON(d), digestJSON(p)
 
-			if _, err := doccomposer.New().ApplyPatches(d, []patch.Patch{p}); err != nil {
+			out, err := doccomposer.New().ApplyPatches(d, []patch.Patch{p})
+			if err != nil {
 				worst = "err"
+			}
+
+			// C12 (mutation mode): a failing patch list yields an error and no (partial) document
+			if mutationMode() && err != nil && out != nil {
+				return "mutated: ApplyPatches returned an error together with a document"
 			}
 
 			// C12 (mutation mode): whatever the outcome, the caller's document and patch are as they were
